@@ -58,7 +58,22 @@ def lpc(inp):
     return True, "lpc coefficients equal the Yule-Walker coefficients (lengths 3..33)"
 
 
+def pyule_norm(inp):
+    """a pyule object built without an explicit norm models the BIASED autocorrelation; an explicit norm is the one used"""
+    import spectrum
+    for cx in (False, True):
+        x = _x(20, cx, 9)
+        for given in (None, "biased", "unbiased"):
+            p = spectrum.pyule(x, 3) if given is None else spectrum.pyule(x, 3, norm=given)
+            p()
+            a, P, k = spectrum.aryule(x, 3, given or "biased")
+            if not close(np.asarray(p.ar), np.asarray(a), 1e-10):
+                return False, "pyule(x, 3%s).ar is not aryule(x, 3, %r): max|diff| %.3g" % (
+                    "" if given is None else ", norm=%r" % given, given or "biased", float(np.max(np.abs(np.asarray(p.ar) - np.asarray(a)))))
+    return True, "pyule forwards its norm; the default is 'biased'"
+
+
 NATIVE = dict(_N)
-NATIVE.update({"aryule": aryule, "gram": gram, "lpc": lpc})
+NATIVE.update({"aryule": aryule, "gram": gram, "lpc": lpc, "pyule_norm": pyule_norm})
 SEARCH = dict(_S)
-SEARCH.update({k: (lambda rng, h: dict(h)) for k in ("aryule", "gram", "lpc")})
+SEARCH.update({k: (lambda rng, h: dict(h)) for k in ("aryule", "gram", "lpc", "pyule_norm")})
